@@ -18,24 +18,23 @@ for sid in sorted(os.listdir(os.path.join(V, "seeded"))):
     rows.append((sid, m["property"], m.get("round", 1), note, res.get("status", "?"), ", ".join(sorted(set(keys)))))
 caught = sum(1 for r in rows if r[4] == "CAUGHT")
 out = ["## 11. Seeded changes written by independent sub-agents, and which rules catch them", "",
-       "Each change was written by a fresh sub-agent that saw only the text of one property and a scratch worktree of /repo (nothing from /verif), in three rounds "
-       "(rounds 2 and 3 were told which ideas the earlier rounds had used and asked for different ones). Every change kept here was confirmed by `tools/verify_seed.py` in the scratch "
-       "worktree: the patch applies to /repo's HEAD, the 30 baseline tests still pass, and the demonstration fails with the change and passes without it on at least one of "
+       "Each change was written by a fresh sub-agent that saw only the text of one property and a scratch worktree of /repo (nothing from /verif), in four rounds "
+       "(each later round was told which ideas the earlier rounds had used and asked for different ones). Every change kept here was confirmed by `tools/verify_seed.py` in the scratch "
+       "worktree: the patch applies to /repo's HEAD of that time, the 30 baseline tests still pass, and the demonstration fails with the change and passes without it on at least one of "
        "the interpreters 3.7-3.10 (3.12 for the JSON-only ones). `tools/seeded.py` applies each patch to a scratch copy (never to /repo) and runs the quick check of the "
-       "property it targets (`--record` stores the outcome in meta.json).", "",
-       f"Result at the last commit that touched the rules: **{caught} of {len(rows)}** changes make the check of *their own* property exit 1 with a finding naming the changed construct. "
-       "History: round 1 - after the first evaluation 16 of 36 were caught by their own check (30 of 45 by some check); round 2 started at 11 of 30; round 3 started at 14 of 48 "
-       "(22 by some check, 8 more at exit 2). The misses drove most of the rule additions listed in section 0a (shared rule bundles across properties, exact relaxation guard, "
-       "witness partition of the constant key, schema witnesses, override-provenance rule, early-exit rules; after round 3: key-domain agreement of the line mapping, prefix "
-       "carry, first-unit line key on the encode side, running-line accumulator, flag write-back guards, pseudo-member registration, copy-protocol / vars() aliasing, "
-       "version-sensitive run-time constructs, ...). Not caught, on purpose or for lack of a sound rule:", "",
-       "* C10-2, C10-8 - arithmetic of the mapping stage over integer sequences (both directions restart line deltas after a no-line run; the loop bound of the lnotab walk is "
-       "`sum` instead of `sum + 2`): declared undecided (section 8); deciding them needs symbolic execution of loops over tables.",
-       "* C10-7 - `collapse_items` rewritten as a single forward pass whose 'previous entry' is the already merged one: exit 2 (the rewritten merge loop is not the recognised shape), "
-       "i.e. 'not decided', not a pass. Whether a limit test may see an accumulated entry is again table arithmetic.",
-       "* C06-6 - the None-pin decision moved into a pre-scan of `blocks[0]` only: exit 2 (guard calls a helper with a loop; not evaluable), again 'not decided'.",
-       "* C14-7 (own check exits 2) - `__iter__` re-derives the constants table with its own rank model: the check declines ('the nested code objects reach the yield through "
-       "`constants_table(...)`, not by walking self's blocks directly').", "",
+       "property it targets (`--record` stores the outcome in meta.json; `--transform=unparse|rename|black60` re-formats the changed tree first). Seeds whose patch stopped applying "
+       "after a later `fix:` commit were re-applied onto the new tree and their demonstrations re-run (`rebased` in meta.json, the original kept as patch.orig.diff).", "",
+       f"Result at the last commit that touched the rules: **{caught} of {len(rows)}** changes make the check of *their own* property exit 1 with a finding naming the changed construct; "
+       "the others end in exit 2 ('not decided'), none passes silently. "
+       "History: round 1 - after the first evaluation 16 of 36 were caught by their own check (30 of 45 by some check); round 2 started at 11 of 30; round 3 at 14 of 48 "
+       "(22 by some check, 8 more at exit 2); round 4 at 12 of 48 (30 by some check, 7 more at exit 2). The misses drove most of the rule additions listed in section 0a. "
+       "Not decided, on purpose or for lack of a sound rule:", "",
+       "* C10-7, C10-8 - arithmetic of the table stages over integer sequences (`collapse_items` rewritten as a forward pass whose 'previous entry' is the already merged one; the lnotab "
+       "walk turned into a `for` over `range(0, max(max_offset, sum(...)), 2)`): exit 2 - whether the bound / the merged entry is right needs symbolic execution of loops over tables.",
+       "* C13-9, C02-10 - the target index found by `bisect_left` over a *part* of the sorted target list: exit 2 - whether the part always contains the target is a loop invariant.",
+       "* C06-6 - the None-pin decision moved into a pre-scan of `blocks[0]` only: exit 2 (guard calls a helper with a loop; not evaluable).",
+       "* C14-7 - `__iter__` re-derives the constants table with its own rank model: exit 2 ('the nested code objects reach the yield through `constants_table(...)`, not by walking "
+       "self's blocks directly').", "",
        "| id | round | what the change does (from the sub-agent's note) | own check | rules that fire |", "|---|---|---|---|---|"]
 for sid, pid, rnd, note, st, keys in rows:
     out.append(f"| {sid} | {rnd} | {note} | {st} | {keys} |")
